@@ -5,6 +5,32 @@
                        negative on a logarithmic track, absent values, all absent), explicit or implied X, up or down,
                        plotted with PlotLogs.PlotLogPasses exactly as the command line tool does; every SVG goes
                        through c19.check_svg with absent-value information computed from the *model*.
+
+  generated-film-pres-plot
+                       LIS files whose FILM and PRES tables are generated as well (file header, FILM, PRES, optionally CONS /
+                       AREA / PIP, DFSR + >= 2 data records, file trailer) and plotted with an empty format list, i.e. with the
+                       tables of the file, which is what ``tdplotlogs`` does without -x.
+                       FILM: 1..4 films, single character names, every (GCOD, GDEC) pair FILMCfg documents (three track
+                       films, the four track film LLLL/1111), every four byte DSCA code (1:20 .. 1:1000).
+                       PRES: 1..7 rows; OUTP a channel of the log pass or DUMM; STAT ALLO / DISA; TRAC any documented code
+                       that is legal on every film the row goes to (T1 T2 T3 T23 TD LHTn RHTn / F1..F4 FD); DEST a film name,
+                       BOTH, ALL, NEIT, several names (b'134 ', names need not exist); MODE SHIF / GRAD (logarithmic) / NB /
+                       WRAP / X10 (unknown: documented fall back) or no MODE column; LEDG != REDG in either order (both > 0
+                       for GRAD); optional COLO column, no FILT / OUTP column (documented defaults); FILM before or after PRES;
+                       now and then a -s scale override, an unknown CODI, and - on purpose - one row with LEDG == REDG.
+                       Channels: 1..5 with the hostile shapes of ``shape_values``; explicit / implied X, up / down, FEET / M / .1IN.
+                       Oracles (besides c19.check_svg on every SVG, absent values from the model):
+                         lis-input-produces-plot   a film that gets an ALLO curve whose OUTP is a channel with a present value
+                                                   has its SVG; PlotLogPasses does not give up on the file
+                         plot-depth==span/scale    the main pane is |X span| / scale deep (DSCA code, or the override)
+                         curve-inside-its-track    every polyline vertex of an output lies in the track of one of its curves
+                         vertex==scale-position    a vertex at a sample depth is at the position the documented linear / log10
+                                                   scale gives that sample (fraction of the track width from the left edge,
+                                                   wrap count allowed by the back-up mode) or on a track edge; a vertex between
+                                                   samples is on a track edge; every on-scale sample but the last has its vertex
+                         disa-curve-not-plotted    an output with only DISA curves on a film has no polyline there (ASSERT_STAT)
+                       Reference for tracks: the layout FILMCfg documents (2.4 in tracks, 0.8 in depth track; four track film:
+                       1 in depth track, 1.75 in tracks), left plot margin 0.25 in, 96 user units per inch.
 """
 import os
 import tempfile
@@ -157,5 +183,591 @@ def check_lis_plot(case, cc):
         cc.nt(bool(svgs) and plottable and len(shapes) >= 1)
 
 
+# ---------------------------------------------------------------------------------------------
+# Part generated-film-pres-plot: the FILM and PRES tables of the file are generated too
+# ---------------------------------------------------------------------------------------------
+#: honour the documented meaning of STAT ("Status, is this curve to be plotted", docs/source/tech/plotting.rst; CurveCfg.stat
+#: "True if can be plotted"): an output all of whose curves on a film are DISA has no polyline on that film
+ASSERT_STAT = True
+
+#: (GCOD, GDEC) pairs that FILMCfg.PhysFilmCfgLISRead documents for three track films: GCOD_GDEC_MAP, the "equivalent"
+#: GCOD_GDEC_ALT_MAP, and the spellings with a blank fourth GDEC character that _retTracks repairs ("-4- " -> "-4--")
+GRIDS_3TRACK = [(b'E20 ', b'-4--'), (b'E2E ', b'-1--'), (b'E2E ', b'-2--'), (b'E3E ', b'-3--'), (b'E4E ', b'-4--'), (b'EEE ', b'----'),
+                (b'EEB ', b'----'), (b'EBE ', b'----'), (b'BBB ', b'----'),
+                (b'EEE ', b'EEE-'), (b'EEB ', b'EEE-'), (b'EB0 ', b'----'), (b'E1E ', b'-4--'), (b'E40 ', b'-4--'),
+                (b'E2E ', b'-2- '), (b'E2E ', b'-1- '), (b'E3E ', b'-3- '), (b'E4E ', b'-4- '), (b'E1E ', b'-4- '), (b'EEE ', b'--- '),
+                (b'EEB ', b'--- '), (b'EB0 ', b'--- '), (b'EEE ', b'EEE ')]
+#: the four track film of 200099.S07
+GRID_4TRACK = (b'LLLL', b'1111')
+#: DSCA codes of FILMCfg.PhysFilmCfgLISRead.DSCA_MAP that a four byte table cell can hold -> 1:scale
+DSCA_SCALE = {b'D20 ': 20, b'D40 ': 40, b'D200': 200, b'S5  ': 240, b'D500': 500, b'S2  ': 600, b'DM  ': 1000}
+DSCA_CODES = sorted(DSCA_SCALE)
+#: film layout in inches from the left margin, as FILMCfg documents it (three tracks of 2.4 in with a 0.8 in depth track
+#: between T1 and T2; "Four track. Depth 1in, 4 tracks at 1.75in")
+_T3 = {'T1': (0.0, 2.4), 'TD': (2.4, 3.2), 'T2': (3.2, 5.6), 'T3': (5.6, 8.0), 'T23': (3.2, 8.0)}
+for _k in ('T1', 'T2', 'T3'):
+    _l, _r = _T3[_k]
+    _T3['LH' + _k] = (_l, (_l + _r) / 2)
+    _T3['RH' + _k] = ((_l + _r) / 2, _r)
+TRACKS_3 = dict(_T3)
+TRACKS_4 = {'FD': (0.0, 1.0), 'F1': (1.0, 2.75), 'F2': (2.75, 4.5), 'F3': (4.5, 6.25), 'F4': (6.25, 8.0)}
+TRAC_CODES_3 = sorted(TRACKS_3)
+TRAC_CODES_4 = sorted(TRACKS_4)
+FILM_NAMES = [bytes([b]) for b in b'12345678ADEJK']
+#: PRES.MODE -> allowed wrap counts (left, right), None = unlimited (PRESCfg.BACKUP_FROM_MODE_MAP and the comments of the
+#: BACKUP_* constants); a MODE that the map does not know, or no MODE column, is documented to fall back to "every backup"
+MODE_BACKUPS = {b'SHIF': (1, 1), b'GRAD': (0, 0), b'NB  ': (0, 0), b'WRAP': (None, None), b'X10 ': (None, None), None: (None, None)}
+MODES = [b'SHIF', b'SHIF', b'GRAD', b'GRAD', b'NB  ', b'WRAP', b'WRAP', b'X10 ']
+#: line codings of PRESCfg.LIS_CODI_MAP (the generator also writes the unknown b'XDOT' now and then: "assuming the default")
+CODIS = [b'LLIN', b'LSPO', b'LDAS', b'LGAP', b'HLIN', b'HSPO', b'HDAS', b'HGAP']
+COLOS = [b'BLAC', b'RED ', b'GREE', b'BLUE', b'AQUA', b'000 ', b'400 ', b'134 ', b'444 ']
+CHANNEL_NAMES = ['GR', 'SP', 'CALI', 'ILD', 'ILM', 'SFLU', 'RHOB', 'NPHI', 'DT', 'TENS', 'LLD', 'MSFL']
+LIN_EDGES = [(0.0, 150.0), (-80.0, 20.0), (0.45, -0.15), (1.95, 2.95), (140.0, 40.0), (5.0, 15.0), (0.0, 100.0), (20.0, 70.0), (42.5, 100.0),
+             (0.0, 42.5), (100.0, 0.0), (0.0, 10.0), (-1e6, 1e6), (0.0, 1e-3), (1000.0, 0.0), (0.0, 1e30), (10.0, 15.0)]
+LOG_EDGES = [(0.2, 2000.0), (2.0, 20000.0), (0.1, 1000.0), (1.0, 10.0), (2000.0, 200000.0), (2000.0, 0.2), (1.0, 100.0), (10.0, 1.0), (42.5, 4250.0),
+             (1e-30, 1e30), (20.0, 70.0)]
+X_INCHES = {b'FEET': 12.0, b'M   ': 1.0 / 0.0254, b'.1IN': 0.1}
+PLOT_MARGIN_IN = 0.25
+
+
+def ref_from68(w):
+    """Reference decoder of representation code 68 (32 bit word -> float): 8 bit excess 128 exponent, 23 bit fraction, negative
+    numbers with the fraction in two's and the exponent in one's complement."""
+    e = (w >> 23) & 0xFF
+    m = w & 0x7FFFFF
+    if w >> 31:
+        return -float((1 << 23) - m) / (1 << 23) * 2.0 ** ((255 - e) - 128)
+    return float(m) / (1 << 23) * 2.0 ** (e - 128)
+
+
+def as68(v):
+    """The value a code 68 cell / channel holds when the independent encoder writes v."""
+    v = float(v)
+    if v != 0.0 and abs(v) < 1e-30:   # below the range of the code
+        v = 0.0
+    return ref_from68(GL.ref_to68(v))
+
+
+def dest_films(dest, names):
+    """Film names (MNEM of the FILM rows) that a PRES.DEST entry selects, as FILMCfg.FilmCfgLISRead.retAllFILMDestS documents:
+    a film name, BOTH (exactly two films), ALL, NEIT (none), or the single characters of e.g. b'123 '."""
+    d = dest.rstrip(b' \x00')
+    if d in names:
+        return [d]
+    if d == b'BOTH' and len(names) == 2:
+        return list(names)
+    if d == b'ALL':
+        return list(names)
+    if d == b'NEIT':
+        return []
+    return [n for n in names if n in [bytes([b]) for b in d]]
+
+
+def _pad4(b, pad=b' '):
+    return (b + pad * 4)[:4]
+
+
+def _one_in(draw, n):
+    """True about once in n draws (a residue of a wide range: Hypothesis favours the ends of a narrow one)."""
+    return draw(st.integers(0, 9999)) % n == 1
+
+
+@st.composite
+def film_pres_cases(draw):
+    nfilms = draw(st.sampled_from([1, 1, 2, 2, 2, 3, 4]))
+    names = draw(st.lists(st.sampled_from(FILM_NAMES), min_size=nfilms, max_size=nfilms, unique=True))
+    films = []
+    for nm in names:
+        four = _one_in(draw, 5)
+        gcod, gdec = GRID_4TRACK if four else draw(st.sampled_from(GRIDS_3TRACK))
+        films.append({'name': nm, 'gcod': gcod, 'gdec': gdec, 'dsca': draw(st.sampled_from(DSCA_CODES)), 'four': four,
+                      'pad': draw(st.sampled_from([b' ', b'\x00']))})
+    nch = draw(st.integers(1, 5))
+    chosen = draw(st.lists(st.sampled_from(CHANNEL_NAMES), min_size=nch, max_size=nch, unique=True))
+    channels = [{'name': c, 'shape': draw(st.sampled_from(SHAPES)), 'units': draw(st.sampled_from([b'    ', b'GAPI', b'OHMM']))} for c in chosen]
+    no_outp_col = _one_in(draw, 12)
+    ncurves = draw(st.integers(1, 7))
+    curves, used = [], set()
+    for k in range(ncurves):
+        ch = draw(st.integers(0, len(channels) - 1))
+        missing = _one_in(draw, 8)
+        outp = b'DUMM' if missing else _pad4(channels[ch]['name'].encode('ascii'))
+        if no_outp_col:   # the curve is fed by the channel of the same name ("No OUTP entry ..., assuming same name as MNEM")
+            mnem = outp
+        else:
+            mnem = _pad4(draw(st.sampled_from([b'C%d' % k, b'CV%d' % k, b'CRV%d' % k, outp.rstrip() if outp not in used else b'X%d' % k])))
+        if mnem in used:
+            continue
+        used.add(mnem)
+        # destination, then a track code that is legal on every film the destination selects
+        kind = draw(st.integers(0, 9))
+        if kind <= 3:
+            dest = names[draw(st.integers(0, nfilms - 1))]
+        elif kind <= 5:
+            dest = b'BOTH' if nfilms == 2 else b'ALL'
+        elif kind == 6:
+            dest = b'ALL'
+        elif kind == 7:
+            dest = b'NEIT'
+        else:   # several film names, e.g. b'134 ': some of them need not exist
+            pool = sorted(names) if nfilms >= 2 and not _one_in(draw, 4) else sorted(set(names) | {b'9', b'3'})
+            dest = b''.join(draw(st.lists(st.sampled_from(pool), min_size=2, max_size=min(3, len(pool)), unique=True)))
+            if dest in (b'ALL', b'AL', b'LA'):
+                dest = names[0]
+        sel = dest_films(dest, names)
+        fams = {f['four'] for f in films if f['name'] in sel}
+        if len(fams) == 2:   # three and four track films have different track names: one film only
+            dest = names[draw(st.integers(0, nfilms - 1))]
+            sel = dest_films(dest, names)
+            fams = {f['four'] for f in films if f['name'] in sel}
+        four = (True in fams) if fams else draw(st.booleans())
+        trac = draw(st.sampled_from(TRAC_CODES_4 if four else TRAC_CODES_3))
+        mode = draw(st.sampled_from(MODES))
+        if mode == b'GRAD':
+            pair = draw(st.one_of(st.sampled_from(LOG_EDGES), st.tuples(st.floats(1e-3, 1e5), st.floats(1e-3, 1e5))))
+        else:
+            pair = draw(st.one_of(st.sampled_from(LIN_EDGES), st.tuples(st.floats(-1e4, 1e4), st.floats(-1e4, 1e4))))
+        ledg, redg = as68(pair[0]), as68(pair[1])
+        if draw(st.booleans()):
+            ledg, redg = redg, ledg
+        if ledg == redg:
+            redg = as68(ledg * 2.0 + 1.0)
+        curves.append({'mnem': mnem, 'outp': outp, 'stat': not _one_in(draw, 4), 'trac': _pad4(trac.encode('ascii')),
+                       'codi': b'XDOT' if _one_in(draw, 20) else draw(st.sampled_from(CODIS)), 'dest': _pad4(dest), 'mode': mode, 'filt': draw(st.sampled_from([0.5, 1.0])),
+                       'ledg': ledg, 'redg': redg, 'edge_units': draw(st.sampled_from([None, b'OHMM', b'GAPI'])),
+                       'colo': draw(st.sampled_from(COLOS)), 'pad': draw(st.sampled_from([b' ', b'\x00']))})
+    n = draw(st.integers(6, 60))
+    units = draw(st.sampled_from([b'FEET', b'M   ', b'.1IN']))
+    return {'films': films, 'channels': channels, 'curves': curves,
+            'table': {'order': draw(st.sampled_from(['FP', 'PF'])), 'no_outp_col': no_outp_col, 'no_mode_col': _one_in(draw, 6),
+                      'no_filt_col': _one_in(draw, 8), 'colo_col': _one_in(draw, 3),
+                      'area': _one_in(draw, 4), 'pip': _one_in(draw, 4), 'cons': _one_in(draw, 4),
+                      # corner tested on purpose: a curve without logical span (LEDG == REDG) is refused by CurveCfgLISRead and the
+                      # table reader documents that it logs the curve and goes on
+                      'no_span_curve': _one_in(draw, 25)},
+            # the -s option of tdplotlogs: a scale that overrides DSCA of every film (0 = none)
+            'scale_override': draw(st.sampled_from([25, 100, 200, 1000])) if _one_in(draw, 6) else 0,
+            'frames': n, 'indirect': draw(st.booleans()), 'up': draw(st.booleans()), 'units': units,
+            'spacing': {b'FEET': 0.5, b'M   ': 0.25, b'.1IN': 60}[units], 'x0': {b'FEET': 5000.5, b'M   ': 1000, b'.1IN': 600000}[units],
+            'seedvals': draw(st.lists(st.integers(0, 1000), min_size=5, max_size=11)),
+            'per_record': min(draw(st.sampled_from([5, 5, 7, 3, 16])), n - 1),   # >= 2 data records (known finding: one record)
+            'pr_len': draw(st.sampled_from([1024, 8192, 200]))}
+
+
+def _cell(v, u=None):
+    return {'v': v, 'u': u}
+
+
+def film_pres_tables(case):
+    """The table models (vt.gen.lis.encode_table_lr) of a case, in file order."""
+    films, curves, t = case['films'], case['curves'], case['table']
+    film = {'lr_type': 34, 'name': b'FILM', 'columns': [b'MNEM', b'GCOD', b'GDEC', b'DEST', b'DSCA'],
+            'rows': [[_cell(_pad4(f['name'], f['pad'])), _cell(f['gcod']), _cell(f['gdec']), _cell(_pad4(b'PF' + f['name'])), _cell(f['dsca'])]
+                     for f in films]}
+    cols = [b'MNEM', b'OUTP', b'STAT', b'TRAC', b'CODI', b'DEST', b'MODE', b'FILT', b'LEDG', b'REDG', b'COLO']
+    drop = set()
+    if t['no_outp_col']:
+        drop.add(b'OUTP')
+    if t['no_mode_col']:
+        drop.add(b'MODE')
+    if t['no_filt_col']:
+        drop.add(b'FILT')
+    if not t['colo_col']:
+        drop.add(b'COLO')
+    rows = []
+    all_curves = list(curves)
+    if t['no_span_curve']:
+        all_curves.append({'mnem': b'NOSP', 'outp': b'NOSP' if t['no_outp_col'] else curves[0]['outp'] if curves else b'DUMM', 'stat': True,
+                           'trac': b'F1  ' if films[0]['four'] else b'T1  ', 'codi': b'LLIN', 'dest': _pad4(films[0]['name']), 'mode': b'NB  ',
+                           'filt': 0.5, 'ledg': 1.0, 'redg': 1.0, 'edge_units': None, 'colo': b'BLAC', 'pad': b' '})
+    for c in all_curves:
+        full = {b'MNEM': _cell(c['mnem'].rstrip(b' ').ljust(4, c['pad'])), b'OUTP': _cell(c['outp']), b'STAT': _cell(b'ALLO' if c['stat'] else b'DISA'),
+                b'TRAC': _cell(c['trac']), b'CODI': _cell(c['codi']), b'DEST': _cell(c['dest']), b'MODE': _cell(c['mode']),
+                b'FILT': _cell(float(c['filt'])), b'LEDG': _cell(float(c['ledg']), c['edge_units']), b'REDG': _cell(float(c['redg']), c['edge_units']),
+                b'COLO': _cell(c['colo'])}
+        rows.append([full[k] for k in cols if k not in drop])
+    pres = {'lr_type': 34, 'name': b'PRES', 'columns': [k for k in cols if k not in drop], 'rows': rows}
+    out = [film, pres] if t['order'] == 'FP' else [pres, film]
+    if t['cons']:
+        out.insert(1, {'lr_type': 34, 'name': b'CONS', 'columns': [b'MNEM', b'ALLO', b'PUNI', b'TUNI', b'VALU'],
+                       'rows': [[_cell(b'WN  '), _cell(b'ALLO'), _cell(b'    '), _cell(b'    '), _cell(b'GENERATED 1 ')],
+                                [_cell(b'BS  '), _cell(b'ALLO'), _cell(b'IN  '), _cell(b'IN  '), _cell(8.5, b'IN  ')]]})
+    if t['area']:
+        out.append({'lr_type': 34, 'name': b'AREA', 'columns': [b'MNEM', b'STAT', b'BEGI', b'END\x00', b'PATT', b'DEST'],
+                    'rows': [[_cell(b'1\x00\x00\x00'), _cell(b'DISA'), _cell(b'Z1  '), _cell(b'Z1  '), _cell(b'BLAN'), _cell(b'NEIT')],
+                             [_cell(b'2\x00\x00\x00'), _cell(b'ALLO'), _cell(b'GR  '), _cell(b'SP  '), _cell(b'GAS '), _cell(_pad4(films[0]['name']))]]})
+    if t['pip']:
+        out.append({'lr_type': 34, 'name': b'PIP ', 'columns': [b'MNEM', b'STAT', b'TRAC', b'OUTP', b'DEST', b'NUMB', b'INTE'],
+                    'rows': [[_cell(b'1\x00\x00\x00'), _cell(b'DISA'), _cell(b'LETD'), _cell(b'DUMM'), _cell(b'NEIT'), _cell(b'OFF '), _cell(0.0)],
+                             [_cell(b'ITT\x00'), _cell(b'ALLO'), _cell(b'RETD'), _cell(b'ITT '), _cell(_pad4(films[0]['name'])), _cell(b'OFF '),
+                              _cell(0.001, b'S   ')]]})
+    return out
+
+
+def build_film_pres_case(case):
+    """Returns (file bytes, absent_info for check_svg, model) - model: xs, values per channel name as the file holds them."""
+    n = case['frames']
+    sign = -1 if case['up'] else 1
+    xs = [case['x0'] + sign * case['spacing'] * f for f in range(n)]
+    dsbs, cols = [], []
+
+    def dsb(mnem, units):
+        return {'mnem': mnem.encode('ascii').ljust(4), 'serv_id': b'VERIF ', 'serv_ord': b'GENERATE', 'units': units, 'api': 0, 'file_no': 1,
+                'size': 4, 'samples': 1, 'rc': 68, 'bursts': 1, 'sub_channels': 1}
+    if not case['indirect']:
+        dsbs.append(dsb('DEPT', case['units']))
+        cols.append([float(x) for x in xs])
+    for c in case['channels']:
+        dsbs.append(dsb(c['name'], c['units']))
+        cols.append(shape_values(c['shape'], n, case['seedvals']))
+    blocks = [{'type': 1, 'size': 1, 'rc': 66, 'value': 0}, {'type': 4, 'size': 1, 'rc': 66, 'value': 1 if case['up'] else 255},
+              {'type': 12, 'size': 4, 'rc': 68, 'value': NULL}]
+    if case['indirect']:
+        blocks += [{'type': 8, 'size': 4, 'rc': 68, 'value': float(case['spacing'])}, {'type': 9, 'size': 4, 'rc': 65, 'value': case['units']},
+                   {'type': 13, 'size': 1, 'rc': 66, 'value': 1}, {'type': 14, 'size': 4, 'rc': 65, 'value': case['units']},
+                   {'type': 15, 'size': 1, 'rc': 66, 'value': 68}]
+    frames = [[(68, [GL.ref_to68(col[f])]) for col in cols] for f in range(n)]
+    per = case['per_record']
+    per_record = [per] * (n // per) + ([n % per] if n % per else [])
+    lp = {'indirect': case['indirect'], 'xs': {'up_down': 1 if case['up'] else 255, 'spacing': case['spacing'], 'x0': case['x0']},
+          'depth_rc': 68, 'units': case['units'], 'blocks': blocks, 'dsbs': dsbs, 'frames': frames, 'per_record': per_record, 'data_type': 0}
+    items = [('delim', GL.LR_FILE_HEAD)] + [('table', t) for t in film_pres_tables(case)] + [('pass', lp), ('delim', GL.LR_FILE_TAIL)]
+    model_case = {'cfg': {'pr_len': case['pr_len'], 'rec_num': False, 'file_num': None, 'checksum': False, 'tif': 'none'}, 'items': items}
+    data, _model = GL.build_lis_file(model_case)
+    first = 0 if case['indirect'] else 1
+    outputs, values = {}, {}
+    for c, col in zip(case['channels'], cols[first:]):
+        held = [as68(v) for v in col]
+        values[c['name']] = held
+        outputs[c['name']] = {'x_present': [float(x) for x, v in zip(xs, held) if v != NULL], 'x_absent': [float(x) for x, v in zip(xs, held) if v == NULL]}
+    absent_info = {'plot_up': bool(case['up']), 'x_first': float(xs[0]), 'x_last': float(xs[-1]), 'outputs': outputs}
+    return data, absent_info, {'xs': [float(x) for x in xs], 'values': values}
+
+
+def scale_position(curve, v):
+    """Reference for one sample on one curve: (kind, fraction) with kind
+       'at'       on scale, fraction of the track width from the left edge
+       'in-track' on scale, but so many wraps away (> 1e6) that the fraction is below double resolution of the SVG question
+       'none'     no point: off scale by the back-up mode, or not positive on a logarithmic scale
+       'unknown'  the normalised position is within 1e-9 of a whole number (a one ulp question which wrap it is)."""
+    import math
+    from fractions import Fraction
+    L, R = curve['ledg'], curve['redg']
+    if curve['mode'] == b'GRAD':
+        if v <= 0.0:
+            return 'none', None
+        p = (math.log10(v) - math.log10(L)) / (math.log10(R) - math.log10(L))
+        exact_edge = v == L or v == R
+    else:
+        p = float(Fraction(v) - Fraction(L)) / float(Fraction(R) - Fraction(L)) if abs(v) < 1e300 else (v - L) / (R - L)
+        exact_edge = v == L or v == R
+    if not math.isfinite(p):
+        return 'unknown', None
+    w = math.floor(p)
+    near = abs(p - round(p)) < 1e-9 * (1.0 + abs(p))
+    if exact_edge:
+        w = 0 if v == L else 1
+        p = float(w)
+    elif near:
+        return 'unknown', None
+    left, right = MODE_BACKUPS[curve['mode']]
+    if (w < 0 and left is not None and -w > left) or (w > 0 and right is not None and w > right):
+        return 'none', None
+    if abs(p) > 1e6:
+        return 'in-track', None
+    return 'at', p - w
+
+
+def _read_plot(path):
+    """Independent reading of one SVG: {'legend_rects': [(x, y, w, h)], 'outputs': {name: [[(x, y), ...], ...]}} in user units."""
+    import collections
+    import xml.etree.ElementTree as ET
+    c19 = _c19()
+    with open(path, 'rb') as f:
+        raw = f.read()
+    parser = ET.XMLParser(target=ET.TreeBuilder(insert_comments=True))
+    parser.feed(raw)
+    root = parser.close()
+    rects, outputs, current = [], collections.OrderedDict(), None
+    for e in c19._untransformed(root):
+        if e.tag is ET.Comment:
+            m = c19._RE_OUTPUT.search(e.text or '')
+            if m:
+                current = m.group(1).strip() if m.group(2) == 'START' else None
+                if current is not None:
+                    outputs.setdefault(current, [])
+        elif e.tag == c19.SVG_NS + 'rect' and e.get('stroke') == 'blue':
+            r = [c19._inches(e.get(k)) for k in ('x', 'y', 'width', 'height')]
+            if None not in r:
+                rects.append(tuple(r))
+        elif e.tag == c19.SVG_NS + 'polyline':
+            pts = []
+            for tok in (e.get('points') or '').split():
+                try:
+                    a, b = tok.split(',')
+                    pts.append((float(a), float(b)))
+                except ValueError:
+                    pass   # check_svg reports malformed points
+            outputs.setdefault(current if current is not None else '?outside-output-section', []).append(pts)
+    return {'legend_rects': rects, 'outputs': outputs}
+
+
+X_TOL = 0.06    # one decimal in the polyline points
+Y_TOL = 0.22    # one decimal in the points, three decimals of inches in y and height of the legend rectangles (samples are >= 0.57 apart)
+
+
+def check_film_geometry(path, film, case, model, cc, route, absent_info=None):
+    """Oracles on one film's SVG beyond check_svg:
+       plot-depth==span/scale     the main pane (between the two legend boxes) is |X span| / DSCA scale deep
+       curve-inside-its-track     every polyline vertex of an output lies inside the track of one of the curves the PRES table
+                                  routes from that output to this film
+       vertex==scale-position     a vertex at a sample depth is at the scale position of that sample on one of those curves (or on
+                                  a track edge: interpolated crossings); a vertex between samples is on a track edge; every
+                                  on-scale sample has its vertex
+       disa-curve-not-plotted     an output whose curves on this film are all DISA has no polyline (ASSERT_STAT)
+    """
+    import bisect
+    names = [f['name'] for f in case['films']]
+    tracks = TRACKS_4 if film['four'] else TRACKS_3
+    plot = _read_plot(path)
+    rects = sorted(plot['legend_rects'], key=lambda r: r[1])
+    if len(rects) != 2:
+        cc.dev('plot-depth==span/scale', 'film-pres:legend-boxes-not-two', '%s: %d blue legend rectangles' % (route, len(rects)))
+        return
+    ptop, pbot = rects[0][1] + rects[0][3], rects[1][1]
+    xs = model['xs']
+    span_in = abs(xs[-1] - xs[0]) * X_INCHES[case['units']]
+    scale = case.get('scale_override') or DSCA_SCALE[film['dsca']]
+    want = span_in / scale * 96.0
+    if abs((pbot - ptop) - want) > 0.16 + 1e-6 * want:   # three roundings to 0.001 in = 0.048 user units each
+        cc.dev('plot-depth==span/scale', 'film-pres:plot-depth-differs-from-span-over-scale',
+               '%s: main pane %.3f user units deep, X span %r %s at 1:%d is %.3f' % (
+                   route, pbot - ptop, abs(xs[-1] - xs[0]), case['units'], scale, want))
+        return
+    cc.cls('filmpres:plot-depth-asserted')
+    if absent_info is not None:
+        n = _c19()._check_absent(cc, route, absent_info, plot['outputs'], (ptop, pbot))
+        cc.cls('filmpres:absent-output-checked', bool(n))
+    # curves of this film by output
+    by_out = {}
+    for c in case['curves']:
+        if film['name'] in dest_films(c['dest'], names):
+            code = c['trac'].decode('ascii').strip()
+            if code not in tracks:
+                raise engine.HarnessError('generator routed track %r to film %r' % (code, film))
+            by_out.setdefault(c['outp'].decode('ascii').strip(), []).append((c, tracks[code]))
+
+    def ux(inches):
+        return (PLOT_MARGIN_IN + inches) * 96.0
+    ys = []
+    for x in xs:
+        prop = (x - xs[0]) / (xs[-1] - xs[0])
+        ys.append(pbot - (pbot - ptop) * prop if case['up'] else ptop + (pbot - ptop) * prop)
+    order = sorted(range(len(ys)), key=lambda i: ys[i])
+    ysorted = [ys[i] for i in order]
+    for name, lines in plot['outputs'].items():
+        npts = sum(len(p) for p in lines)
+        if name not in by_out or name not in model['values']:
+            if npts:
+                cc.dev('curve-inside-its-track', 'film-pres:polyline-for-output-not-routed-to-film',
+                       '%s: %d point(s) under output %r, which no PRES row sends to film %r (or which is no channel)' % (route, npts, name, film['name']))
+            continue
+        cvs = by_out[name]
+        if ASSERT_STAT and npts and not any(c['stat'] for c, _t in cvs):
+            cc.dev('disa-curve-not-plotted', 'film-pres:DISA-curve-plotted',
+                   '%s: output %s feeds only STAT=DISA curves (%s) on film %r but has %d polyline(s) with %d points' % (
+                       route, name, [c['mnem'] for c, _t in cvs], film['name'], len(lines), npts))
+        vals = model['values'][name]
+        # expectation per sample: allowed positions
+        allowed = []   # per sample: (list of exact x, list of free intervals)
+        for i, v in enumerate(vals):
+            exact, free = [], []
+            if v != NULL:
+                for c, (tl, tr) in cvs:
+                    kind, frac = scale_position(c, v)
+                    if kind == 'at' and c['mode'] != b'X10 ':
+                        exact.append((ux(tl + frac * (tr - tl)), c))
+                    elif kind in ('in-track', 'unknown') or (kind == 'at'):
+                        free.append((ux(tl), ux(tr)))
+            allowed.append((exact, free))
+        edges = sorted({ux(t[0]) for _c, t in cvs} | {ux(t[1]) for _c, t in cvs})
+        seen = set()   # (sample, curve mnem) that got its vertex
+        bad = {'track': None, 'sample': None, 'between': None}
+        nbad = {'track': 0, 'sample': 0, 'between': 0}
+        for pts in lines:
+            for px, py in pts:
+                if not any(ux(tl) - X_TOL <= px <= ux(tr) + X_TOL for _c, (tl, tr) in cvs):
+                    nbad['track'] += 1
+                    bad['track'] = bad['track'] or (px, py)
+                    continue
+                on_edge = any(abs(px - e) <= X_TOL for e in edges)
+                j = bisect.bisect_left(ysorted, py - Y_TOL)
+                hit = False
+                at_sample = False
+                while j < len(ysorted) and ysorted[j] <= py + Y_TOL:
+                    at_sample = True
+                    i = order[j]
+                    exact, free = allowed[i]
+                    for xe, c in exact:
+                        if abs(px - xe) <= X_TOL:
+                            seen.add((i, c['mnem']))
+                            hit = True
+                    if any(a - X_TOL <= px <= b + X_TOL for a, b in free):
+                        hit = True
+                    j += 1
+                if hit or on_edge:
+                    continue
+                k = 'sample' if at_sample else 'between'
+                nbad[k] += 1
+                bad[k] = bad[k] or (px, py)
+        if bad['track'] is not None:
+            cc.dev('curve-inside-its-track', 'film-pres:vertex-outside-the-track-of-its-curves',
+                   '%s: output %s: %d vertex/vertices, first %r; tracks of its curves: %s' % (
+                       route, name, nbad['track'], bad['track'], [(c['trac'], round(ux(t[0]), 1), round(ux(t[1]), 1)) for c, t in cvs]))
+        if bad['sample'] is not None:
+            cc.dev('vertex==scale-position', 'film-pres:vertex-at-sample-depth-not-at-scale-position',
+                   '%s: output %s: %d vertex/vertices, first %r; curves %s' % (
+                       route, name, nbad['sample'], bad['sample'], [(c['mnem'], c['trac'], c['mode'], c['ledg'], c['redg']) for c, _t in cvs]))
+        if bad['between'] is not None:
+            cc.dev('vertex==scale-position', 'film-pres:vertex-between-samples-not-on-a-track-edge',
+                   '%s: output %s: %d vertex/vertices, first %r; track edges %s' % (route, name, nbad['between'], bad['between'], [round(e, 1) for e in edges]))
+        # PlotLogs plots from LogPass.xAxisFirstEngVal to xAxisLastEngVal, which LogPass.setFrameSetChX turns into the frame
+        # slice [first, last): the last frame is not loaded.  The property does not promise a point for it: not required.
+        last = len(allowed) - 1
+        # A DISA curve may be drawn (today) or not (STAT honoured): its positions are allowed, its vertices are not required.
+        missing = [(i, c) for i, (exact, _f) in enumerate(allowed) for _xe, c in exact
+                   if (i, c['mnem']) not in seen and i != last and (c['stat'] or not ASSERT_STAT)]
+        cc.cls('filmpres:last-frame-not-drawn', any((last, c['mnem']) not in seen for _xe, c in allowed[last][0]))
+        cc.cls('filmpres:last-frame-drawn', any((last, c['mnem']) in seen for _xe, c in allowed[last][0]))
+        n_exact = sum(1 for e, _f in allowed[:-1] for _xe, c in e if c['stat'] or not ASSERT_STAT)
+        cc.cls('filmpres:scale-positions-asserted', n_exact > 0)
+        if missing:
+            i, c = missing[0]
+            cc.dev('vertex==scale-position', 'film-pres:on-scale-sample-without-vertex',
+                   '%s: output %s curve %s (%s %s %r..%r): %d of %d on-scale samples have no vertex, first: sample %d value %r expected x=%.1f y=%.1f' % (
+                       route, name, c['mnem'], c['trac'], c['mode'], c['ledg'], c['redg'], len(missing), n_exact, i, vals[i],
+                       [xe for xe, cc_ in allowed[i][0] if cc_ is c][0], ys[i]))
+    # outputs that must have been drawn at all are covered by 'on-scale-sample-without-vertex' only when the section exists
+    for name, cvs in by_out.items():
+        if name in model['values'] and name not in plot['outputs'] and any(c['stat'] or not ASSERT_STAT for c, _t in cvs):
+            cc.dev('vertex==scale-position', 'film-pres:no-output-section-for-routed-channel',
+                   '%s: channel %s is routed to film %r by %s but the SVG has no "Output %s" section' % (
+                       route, name, film['name'], [c['mnem'] for c, _t in cvs], name))
+
+
+def check_film_pres_plot(case, cc):
+    import re
+    c19 = _c19()
+    if not case['curves']:
+        cc.cls('filmpres:no-curve-left')
+        return
+    data, absent_info, model = build_film_pres_case(case)
+    names = [f['name'] for f in case['films']]
+    chan = {c['name']: c for c in case['channels']}
+    t = case['table']
+    # classes
+    cc.cls('filmpres:films=%d' % len(names))
+    for f in case['films']:
+        cc.cls('filmpres:scale-1:%d' % DSCA_SCALE[f['dsca']])
+        cc.cls('filmpres:grid-%s/%s' % (f['gcod'].decode().strip(), f['gdec'].decode().strip()))
+        cc.cls('filmpres:four-track-film', f['four'])
+    routed_curves = 0
+    for c in case['curves']:
+        sel = dest_films(c['dest'], names)
+        code = c['trac'].decode().strip()
+        if sel:
+            routed_curves += 1
+            cc.cls('filmpres:track-' + code)
+            cc.cls('filmpres:half-track', code[:2] in ('LH', 'RH'))
+            cc.cls('filmpres:mode-' + ('(no MODE column)' if t['no_mode_col'] else c['mode'].decode().strip()))
+            cc.cls('filmpres:log-curve', c['mode'] == b'GRAD' and not t['no_mode_col'])
+            cc.cls('filmpres:linear-curve', c['mode'] != b'GRAD' or t['no_mode_col'])
+            cc.cls('filmpres:edges-reversed', c['ledg'] > c['redg'])
+            cc.cls('filmpres:DISA-curve', not c['stat'])
+            cc.cls('filmpres:curve-on-several-films', len(sel) > 1)
+            name = c['outp'].decode().strip()
+            cc.cls('filmpres:output-not-in-log-pass', name not in chan)
+            if name in chan:
+                sh = chan[name]['shape']
+                cc.cls('filmpres:shape-' + sh)
+                cc.cls('filmpres:nonpositive-on-log-curve', c['mode'] == b'GRAD' and not t['no_mode_col'] and sh in ('nonpositive', 'spikes', 'huge', 'wrapping'))
+        d = c['dest'].rstrip(b' \x00')
+        cc.cls('filmpres:dest-' + ('film-name' if d in names else d.decode() if d in (b'BOTH', b'ALL', b'NEIT') else 'several-names'))
+    cc.cls('filmpres:film-with-several-curves', any(sum(1 for c in case['curves'] if f in dest_films(c['dest'], names)) >= 2 for f in names))
+    cc.cls('filmpres:output-feeds-several-curves', len({c['outp'] for c in case['curves']}) < len(case['curves']))
+    cc.cls('filmpres:implied-x', case['indirect'])
+    cc.cls('filmpres:scale-override', bool(case.get('scale_override')))
+    cc.cls('filmpres:unknown-CODI', any(c['codi'] == b'XDOT' for c in case['curves']))
+    cc.cls('filmpres:up-log', case['up'])
+    cc.cls('filmpres:units-' + case['units'].decode().strip())
+    for k in ('no_outp_col', 'no_mode_col', 'no_filt_col', 'colo_col', 'area', 'pip', 'cons', 'no_span_curve'):
+        cc.cls('filmpres:table-' + k, t[k])
+    cc.cls('filmpres:PRES-before-FILM', t['order'] == 'PF')
+    cc.sample({'films': [(f['name'], f['gcod'], f['gdec'], f['dsca']) for f in case['films']],
+               'curves': [(c['mnem'], c['outp'], 'ALLO' if c['stat'] else 'DISA', c['trac'], c['dest'], c['mode'], c['ledg'], c['redg']) for c in case['curves']],
+               'channels': [(c['name'], c['shape']) for c in case['channels']], 'frames': case['frames'], 'implied_x': case['indirect'],
+               'up': case['up'], 'units': case['units']})
+    if t['no_mode_col']:   # documented default b'WRAP', linear
+        case = dict(case, curves=[dict(c, mode=None) for c in case['curves']])
+    # which film must give a plot: an ALLO curve routed to it whose output is a channel with a present value
+    must = {}
+    for f in case['films']:
+        must[f['name']] = [c['mnem'] for c in case['curves'] if c['stat'] and f['name'] in dest_films(c['dest'], names)
+                           and c['outp'].decode().strip() in chan and chan[c['outp'].decode().strip()]['shape'] != 'all-absent']
+    with tempfile.TemporaryDirectory(prefix='vt_c19f_') as d:
+        path = os.path.join(d, 'GEN.LIS')
+        with open(path, 'wb') as f:
+            f.write(data)
+        os.makedirs(os.path.join(d, 'out'))
+        info, svgs, logged, err = c19.plot_lis_file(path, os.path.join(d, 'out'), [], False, case.get('scale_override', 0))
+        if err is not None:
+            cc.unexpected(err)
+            return
+        if info.lisFileCntr != 1:
+            if t['no_span_curve'] and any('CbEngValRead.__format__' in m for m in logged):
+                cc.dev('lis-input-produces-plot', 'film-pres:curve-without-span-aborts-the-file',
+                       'a PRES row with LEDG == REDG: PlotLogPasses gave up on the whole file; logged: %s' % ' | '.join(logged[-2:])[:700])
+            else:
+                cc.dev('lis-input-produces-plot', 'plotlogs-reports-lis-failure',
+                       'PlotLogPasses gave up on a generated file with FILM %s and %d PRES rows; logged: %s' % (
+                           [(f['name'], f['gcod'], f['gdec'], f['dsca']) for f in case['films']], len(case['curves']), ' | '.join(logged[-3:])[:900]))
+            return
+        by_film = {}
+        for s in svgs:
+            m = re.search(r'GEN\.LIS_(\d{4})_(.*)\.svg$', os.path.basename(s))
+            if not m or m.group(1) != '0000' or m.group(2).encode() not in names:
+                cc.dev('lis-input-produces-plot', 'film-pres:svg-for-unknown-film-or-pass', 'wrote %s; films %s' % (os.path.basename(s), names))
+                continue
+            by_film[m.group(2).encode()] = s
+        points = 0
+        for f in case['films']:
+            s = by_film.get(f['name'])
+            cc.cls('filmpres:film-must-plot', bool(must[f['name']]))
+            cc.cls('filmpres:film-without-plottable-curve', not must[f['name']])
+            if s is None:
+                if must[f['name']]:
+                    cc.dev('lis-input-produces-plot', 'film-pres:no-plot-for-film-with-plottable-curve',
+                           'film %r (%s %s %s) gets the ALLO curves %s whose outputs are channels with values, but no SVG was written; logged: %s' % (
+                               f['name'], f['gcod'], f['gdec'], f['dsca'], must[f['name']], ' | '.join(logged[-2:])[:500]))
+                continue
+            route = 'generated-film-pres-plot film %s' % f['name'].decode()
+            # check_svg finds the main pane from the vertical grid lines of the tracks; a film whose tracks are all blank (BBB)
+            # has none, so its absent-value check is run here with the pane between the two legend boxes
+            blank = f['gcod'] == b'BBB '
+            res = c19.check_svg(s, cc, None if blank else absent_info, route=route)
+            cc.cls('filmpres:svg-checked')
+            if not res:
+                continue
+            points += res['points']
+            cc.cls('filmpres:absent-output-checked', bool(res.get('absent_checked')))
+            try:
+                check_film_geometry(s, f, case, model, cc, route, absent_info if blank else None)
+            except SyntaxError:   # ET.ParseError: check_svg has reported it
+                pass
+        cc.cls('filmpres:polyline-points>0', points > 0)
+        cc.nt(bool(by_film) and routed_curves >= 1 and any(must.values()))
+
+
 def parts(tier):
-    return [HypPart('generated-lis-plot', lis_plot_cases(), check_lis_plot, 120, 3000)]
+    return [HypPart('generated-lis-plot', lis_plot_cases(), check_lis_plot, 120, 3000),
+            HypPart('generated-film-pres-plot', film_pres_cases(), check_film_pres_plot, 150, 4000)]
